@@ -129,15 +129,19 @@ def _build(ch):
     doa = ch.flag("docstrings_on_attributes")
     lit = ch.flag("literal_enums")
     title = ch.pick("title", ["My API", "1 api", "class", "é-api", "a.b c"])
+    # free text whose END touches the closing delimiter of a docstring (quotes inside text are C05's; how text ENDS is about validity)
+    desc = ch.pick("description", ["plain words", 'ends with a quote "', "ends with a backslash \\", 'ends with two quotes ""', "ends with an apostrophe '", "multi\nline ends\n"])
     if s0 == s1:
         s1 = s1 + "2"
     while ename in (s0, s1):
         ename = ename + "3"
     if p0 == p1:
         p1 = p1 + "2"
-    A = {"type": "object", "properties": {p0: {"type": "string", "format": "date"}, p1: {"type": "string", "enum": ["x", "y"]}}, "required": [p0]}
+    A = {"type": "object", "description": desc, "properties": {p0: {"type": "string", "format": "date", "description": desc}, p1: {"type": "string", "enum": ["x", "y"], "description": desc}}, "required": [p0]}
     B = {"type": "object", "properties": {"n": {"type": "integer"}}}
     A["properties"]["kind"] = ref(ename)
+    A["properties"]["stamp"] = {"type": "string", "format": "date-time"}      # an optional date-typed attribute AFTER the named ones (module names used in annotations)
+    A["properties"]["uid"] = {"type": "string", "format": "uuid"}
     E = {"type": "string", "enum": ["k1", "k2"]}
     comps = {s0: A, s1: B, ename: E}
     if shape == "S0->S1":
